@@ -60,11 +60,12 @@ func (s *Sim) stepExt(op *Op) bool {
 			n = 1
 		}
 		s.Slots[op.C].Conn.MC.FailWriteAt(n)
+		s.Slots[op.C].faulted = true
 		s.M.count("write_faults_armed")
 	case "raw":
 		// handled by specialised checks
 	default:
-		return false
+		return s.stepInline(op)
 	}
 	return true
 }
@@ -248,7 +249,7 @@ func (s *Sim) inboundAlias(sl *Slot, msg *Msg, op *Op) bool {
 		// must not be routed; the broker either closes the connection or answers with a failure code
 		sl.ExpectClose = true
 		sl.expect(&Expect{Kind: rc.DISCONNECT, Optional: true, Rule: "C24/inbound-alias", What: "rejection of invalid alias use", Step: m.Step, SP: -1})
-		s.aliasRejected = append(s.aliasRejected, aliasRej{sl: sl, msg: msg, why: why, pid: op.PID})
+		s.aliasRejected = append(s.aliasRejected, aliasRej{sl: sl, msg: msg, why: why, pid: op.PID, seq: s.B.Seq.Now()})
 		return false
 	}
 	if int(op.Alias) > max {
@@ -273,6 +274,7 @@ type aliasRej struct {
 	msg *Msg
 	why string
 	pid uint16
+	seq int64
 }
 
 func (s *Sim) checkMsgExpiry(sl *Slot, msg *Msg, p *rc.Packet, exp *Expect) {
@@ -316,4 +318,11 @@ func (m *Model) setWillDisp(w *Will, d string) {
 		m.WillDisp = map[string]string{}
 	}
 	m.WillDisp[w.Payload] = d
+}
+
+func (s *Sim) outbufOf(sl *Slot) int {
+	if cl, ok := s.B.S.Clients.Get(sl.ClientID); ok && sl.Conn != nil && cl.Net.Remote == sl.Conn.Name {
+		return cl.VerifOutbuf()
+	}
+	return 0
 }
